@@ -63,6 +63,8 @@ Proof.
   destruct (runs_bind_inv _ _ _ _ R2) as [(p1 & p2 & r & P1 & P2 & ->)|(s & P1 & ->)].
   2:{ left. apply nsr_app; [exact N1|]. exact (switchover_never_records_success _ _ _ _ _ _ P1). }
   pose proof (switchover_never_records_success _ _ _ _ _ _ P1) as N2.
+  destruct (lock_lost (fst r)).
+  { cbn in P2. destruct P2 as [-> _]. left. rewrite app_nil_r. apply nsr_app; assumption. }
   cbn [runs] in P2. destruct p2 as [|g p3]; [destruct P2|]. destruct P2 as (_ & Eg & P2).
   assert (Ng : no_success_record [g]) by (constructor; [intros v E; rewrite Eg in E; discriminate E|constructor]).
   assert (REST : forall q (B : Type) (oo : outcome B) (pp : prog B), allcalls (fun _ c => calmb c = true) pp -> runs pp q oo ->
